@@ -241,9 +241,13 @@ PROPS["C04"] = dict(
     explanation="Deductive chain: (1) placement k = wrap(g_k * T(site)) with linear part g_k * Rot (Verus, C15 clauses); (2) to_cartesian_isometry keeps the linear part and maps the translation by the cell matrix C (Verus); "
                 "(3) the tables are the ITA general positions with the ITA crystal family (Kani, complete); (4) the cell angle is a free parameter only for Monoclinic cells and non-hexagonal cells start at pi/2 (Kani, complete, all bit patterns) "
                 "so cos t = 0 is invariant for the mirror/glide groups; (5) z3: diag(+-1,+-1) commutes with C when it is +-I or cos t = 0, hence the Cartesian operation (M, C t_g) is an isometry mapping placement k onto placement k' "
-                "with g g_k = g_k' mod lattice (closure proved on the tables under C16).",
+                "with g g_k = g_k' mod lattice (closure proved on the tables under C16). (6) COMPOSITION (c04.symmetry, a counted lemma obligation in unit geom, with steps lemma_c04_frac / _cart / _lin): from (1)-(5) as hypotheses, stated with the units' own predicates "
+                "(placement_ok, is_cart, closure of the table `composes`, diag(+-1,+-1) operations, 'different signs only with cos t = 0'), Verus derives that each operation in Cartesian space has the orthogonal linear part diag(+-1,+-1) commuting with the cell matrix "
+                "and maps the placed copy k onto the placed copy k' — same orientation and handedness — up to a lattice translation n*A + m*B.",
     assumptions=_GEOM_ASSUMPTIONS + ["in floats cos(PI/2) is 6e-17, not 0: the residual shear of a 'rectangular' cell is a rounding effect outside Theory M"],
-    undecided=["the composition of steps (1)-(5) is a paper argument (DESIGN §5 C04), each step is machine-checked"],
+    undecided=["the composition lemma takes the steps as hypotheses; that they are discharged for the state at hand by positions.each (1), isometry.cart (2), the Kani table harnesses (3), k_cell_dof / from_family / the optimiser frame (4) is a hand-over between units and back ends, not a machine-checked step",
+               "'preserved by optimisation' rests on C06/C08: the optimiser only moves parameters inside their handles' ranges and the angle has a handle only for Monoclinic cells",
+               "the lemma is about one operation and one placement; 'the set of placed shapes is mapped onto itself' follows by quantifying over the table (closure gives a k' for every (a, k), and the map k -> k' is injective because operations are invertible in the table): that last step is by inspection"],
 )
 
 # ---------------------------------------------------------------- state level (C01, C03, C08, C10) and C02 update
